@@ -1,6 +1,6 @@
 (* C10 — property theorems (statements only; proofs are in Proofs.v). *)
 From Coq Require Import List NArith Bool Lia.
-From LV Require Import Wire.Model Wire.Proofs.
+From LV Require Import Wire.Model Wire.Proofs Wire.Loose.
 Import ListNotations.
 Local Open Scope N_scope.
 
@@ -39,6 +39,18 @@ Proof.
   - intros H. apply (dec_loop_sound ks Hks) in H; [|assumption]. exact H.
   - intros (-> & Hs & Hf). apply dec_loop_complete; auto.
 Qed.
+
+(* … and for ANY known-record set, DBigSize included, DecodeP2P accepts exactly
+   the concatenations of records with strictly increasing types whose announced
+   length is at most 65535 and equals the value length, EXCEPT that the
+   announced length of a BigSize record is unconstrained.  This is the exact
+   extent of finding C10-F2. *)
+Theorem C10_tlv_p2p_accepts_exactly : forall ks b rs,
+  wf_bytes b ->
+  (decode_stream ks true b = Ok rs <->
+   exists ls, b = encode_stream_claimed rs ls /\ sorted_from 0 rs /\
+              Forall2 (claimed_ok ks) rs ls).
+Proof. exact tlv_p2p_accepts_exactly. Qed.
 
 (* decode-then-encode reproduces the input; encode-then-decode the records *)
 Theorem C10_tlv_decode_encode_id : forall ks b rs,
